@@ -1,4 +1,5 @@
 """per-property registry used by ./check"""
+import extras
 
 
 def _ok_obs(line, out):
@@ -70,6 +71,20 @@ PROPS["C06"] = {
             "storing; non-trivial = distinct case whose prediction and fill_tags returned",
     "scopes": {},
     "assumptions": ["daachorse automata behave as their documented contract"],
+}
+
+PROPS["C08"] = {
+    "families": ["C08"],
+    "nontrivial": _pred_ok,
+    "rule": "random histories (<=8 quick / <=12 thorough ops over update_raw/tokenized/partial incl. failing inputs, predict with 4 "
+            "predictors (tags+scores, other model without tags, tags without scores, tag prediction on a tagless model), "
+            "fill_tags where documented, reset_tags, boundary/tag writes, observations) simulated on the real code while "
+            "generating, each followed by update_raw(x); predict; [fill_tags]; observe and compared with a fresh sentence; "
+            "non-trivial = distinct history whose probe returned",
+    "scopes": {},
+    "extras": [extras.threads_extra, extras.send_sync_scan],
+    "assumptions": ["thread clause: Predictor is Send+Sync without unsafe impls or interior mutability (checked by rustc and a source scan); "
+                    "interleavings below call granularity are not modelled"],
 }
 
 SETUP_EXTRA = []
